@@ -91,7 +91,11 @@ TBogus == /\ (IsEvent("unknown") \/ IsEvent("lost"))
 TNoDisc == /\ IsEvent("nodisc")
            /\ Check(4, "C16 a background handler that never returns kept DISCONNECTED from being delivered", FALSE)
            /\ UNCHANGED <<vars, lastLine>>
-TNext == (TEnter \/ TExit \/ TRecover \/ TIPanic \/ TDisc \/ TReset \/ TBogus \/ TNoDisc) /\ Props
+\* the connection is up, background handlers are blocked for ever, and the event loop has stopped answering
+TStalled == /\ IsEvent("stalled")
+            /\ Check(4, "C16 background handlers that never return stopped the delivery of later events", FALSE)
+            /\ UNCHANGED <<vars, lastLine>>
+TNext == (TEnter \/ TExit \/ TRecover \/ TIPanic \/ TDisc \/ TReset \/ TBogus \/ TNoDisc \/ TStalled) /\ Props
 TraceSpec == TInit /\ [][TNext]_tvars
 
 HW == TLCSet(1, IF l > TLCGet(1) THEN l ELSE TLCGet(1))
